@@ -497,6 +497,13 @@ impl DbInner {
 	where
 		I: IntoIterator<Item = (ColId, Operation<Vec<u8>, Vec<u8>>)>,
 	{
+		// Validate the whole transaction before anything is claimed, counted or published, so
+		// that a rejected transaction leaves no trace.
+		let tx: Vec<(ColId, Operation<Vec<u8>, Vec<u8>>)> = tx.into_iter().collect();
+		for (col, change) in tx.iter() {
+			self.validate_change(*col, change)?;
+		}
+
 		let mut commit: CommitChangeSet = Default::default();
 		for (col, change) in tx.into_iter() {
 			if self.options.columns[col as usize].btree_index {
@@ -628,6 +635,56 @@ impl DbInner {
 		}
 
 		self.commit_raw(commit)
+	}
+
+	// Side-effect free check that `change` is acceptable for column `col`.
+	fn validate_change(&self, col: ColId, change: &Operation<Vec<u8>, Vec<u8>>) -> Result<()> {
+		let options = self
+			.options
+			.columns
+			.get(col as usize)
+			.ok_or_else(|| Error::InvalidInput(format!("Invalid column {col}")))?;
+		// A btree-indexed column takes the btree path whatever its multitree flag says.
+		let multitree = options.multitree && !options.btree_index;
+		let invalid = || Err(Error::InvalidInput(format!("Invalid operation for column {col}")));
+		match change {
+			Operation::Set(..) | Operation::Dereference(..) =>
+				if multitree {
+					return Err(Error::InvalidConfiguration(
+						"Invalid operation for multitree column".to_string(),
+					))
+				},
+			Operation::Reference(..) =>
+				if multitree {
+					return Err(Error::InvalidConfiguration(
+						"Invalid operation for multitree column".to_string(),
+					))
+				} else if !options.ref_counted {
+					return Err(Error::InvalidInput(format!("No Rc for column {col}")))
+				},
+			Operation::InsertTree(..) =>
+				if !multitree {
+					return invalid()
+				},
+			Operation::ReferenceTree(..) =>
+				if !multitree {
+					return invalid()
+				},
+			Operation::DereferenceTree(key) => {
+				if !multitree {
+					return invalid()
+				}
+				if options.append_only {
+					return Err(Error::InvalidConfiguration(
+						"Attempting to dereference a tree from an append_only column.".to_string(),
+					))
+				}
+				if self.get(col, key, false)?.is_none() {
+					return Err(Error::InvalidConfiguration("No entry for tree root".to_string()))
+				}
+			},
+		}
+		Ok(())
 	}
 
 	fn commit_raw(&self, commit: CommitChangeSet) -> Result<()> {
